@@ -295,7 +295,14 @@ def impl(case):
                     break
                 if case["kind"] == "kymo" and int(obj.pixels_per_line) == 0:
                     break  # nothing left to operate on
-            return [show_kymo(obj) if case["kind"] == "kymo" else show_scan(obj)]
+            show = show_kymo if case["kind"] == "kymo" else show_scan
+            first = show(obj)
+            # asking again must give the same answers (a derived object that hands out its own mutable state, or
+            # scales what its source handed it in place, answers differently the second time)
+            again = show(obj)
+            if again != first:
+                return [f"unstable-queries first={first[:300]} again={again[:300]}"]
+            return [first]
     except Exception as e:
         return [errname(e)]
 
